@@ -52,7 +52,7 @@ Inductive outcome :=
   | OEnvEnd        (* environment script exhausted: select() had no step left *)
   | OBlocked       (* select() without timeout and nothing registered is readable: blocks for ever *)
   | OSpin          (* nothing to wait for: _loop does nothing, run() spins for ever *)
-  | OKeyError.     (* ZMQEventLoop only: KeyError left run() although no callback raised *)
+  | OKeyError.     (* KeyError left run() although no callback raised: produced by no model since the fix of ZMQEventLoop._loop; kept as an outcome code of the harness *)
 
 (* ---------- state ---------- *)
 Record alarm_t := mkAlarm { a_due : Z; a_tie : Z; a_cb : Z }.
